@@ -45,9 +45,9 @@ T = {
  "C13c": ("C13", r"s_admit_lemma_n2$"),
  "C14c": ("C14", r"l2_n[124]$"),
  "C15c": ("C15", r"contains_key_and_iter_are_not_maintenance_points$"),
- "C16c": ("C16", r"s_insert_update1_no_expiry$"),
+ "C16c": ("C16", r"s_insert_update0_below_watermark_no_expiry$"),
  "C17c": ("C17", r"sync_initial_capacity_is_inert$"),
- "C01d": ("C01", r"s_k1_is_expired_wo$|s_get0_before_watermark$|s_iterfilter0_before_watermark_no_expiry$"),
+ "C01d": ("C01", r"s_get0_written_before_watermark_read_on_it$|s_contains0_written_before_watermark_read_on_it$"),
  "C03d": ("C03", r"purge_both_tti_only_w$"),
  "C04d": ("C04", r"l_sync_idle_over_capacity_evicts$"),
  "C05d": ("C05", r"sync_iter_skips_entry_that_expires_after_iter_was_created$"),
@@ -59,7 +59,7 @@ T = {
  "C11d": ("C11", r"purge_both_tti_only_w$"),
  "C12d": ("C12", r"get_hit1_n2_tti_sym$|get_hit0_n2_ttl_sym$"),
  "C13d": ("C13", r"insert_new_n2_w_sketch_off$|admit_lemma_n1$"),
- "C14d": ("C14", r"invalidate_all_n2$|invalidate_all_both$"),
+ "C14d": ("C14", r"invalidate_all_then_refill_n2$"),
  "C16d": ("C16", r"iter_both_ttl_only_expired$|k1_is_expired_entry_reads_the_entrys_own_nodes$"),
 }
 if __name__ == "__main__":
